@@ -98,23 +98,26 @@ Variable freshn : dcontent -> positive.
 (* how many bytes a faulted encode leaves in the temporary file *)
 Variable kpart : nat.
 
-Definition dcall {A} (op : dop) (p q : pathref) (w : dworld)
+(* mf / mn: the paths named by the error of an injected / a natural failure of this call *)
+Definition dcallm {A} (op : dop) (p q : pathref) (mf mn : error) (w : dworld)
     (f : tree -> option (tree * A)) (onfault : tree -> tree) : dout A :=
-  if pl (dcnt w) then DFail EIO [p; q] (DW (onfault (wt w)) (S (dcnt w)) (DEv op p q (Some EIO) :: dtr w))
+  if pl (dcnt w) then DFail EIO mf (DW (onfault (wt w)) (S (dcnt w)) (DEv op p q (Some EIO) :: dtr w))
   else match f (wt w) with
        | Some (t', a) => DDone a (DW t' (S (dcnt w)) (DEv op p q None :: dtr w))
-       | None => DFail ENOENT [p; q] (DW (wt w) (S (dcnt w)) (DEv op p q (Some ENOENT) :: dtr w))
+       | None => DFail ENOENT mn (DW (wt w) (S (dcnt w)) (DEv op p q (Some ENOENT) :: dtr w))
        end.
+(* os.PathError / os.LinkError name the paths of the call *)
+Definition dcall {A} (op : dop) (p q : pathref) := @dcallm A op p q [p; q] [p; q].
 
 (* os.MkdirTemp(p, pattern) *)
 Definition mkdir_temp (p : dir) (w : dworld) : dout dir :=
   let d := p ++ [freshd (wt w) p] in
-  dcall DMkdirTemp (PDir d) (PDir p) w
+  dcallm DMkdirTemp (PDir d) (PDir p) [] [] w
     (fun t => match t !! p with Some _ => Some (<[d := ∅]> t, d) | None => None end) id.
 (* os.CreateTemp(d, pattern): new empty file, mode 0600 *)
 Definition create_temp (d : dir) (w : dworld) : dout positive :=
   let n := match wt w !! d with Some c => freshn c | None => 1%positive end in
-  dcall DCreateTemp (PFile d n) (PFile d n) w
+  dcallm DCreateTemp (PFile d n) (PFile d n) [] [] w
     (fun t => match t !! d with Some c => Some (<[d := <[n := File [] mode_tmp]> c]> t, n) | None => None end) id.
 (* os.Lstat / os.Stat *)
 Definition lstat (d : dir) (n : positive) (w : dworld) : dout unit :=
@@ -157,7 +160,7 @@ Definition sync_dir (d : dir) (w : dworld) : dout unit :=
   dcall DSyncDir (PDir d) (PDir d) w (fun t => match t !! d with Some _ => Some (t, tt) | None => None end) id.
 (* pdfcpu.SaveCertificates(certs, stageFile): (re)writes the whole file *)
 Definition save (d : dir) (n : positive) (data : bytes) (valid : bool) (w : dworld) : dout unit :=
-  dcall DSave (PFile d n) (PFile d n) w
+  dcallm DSave (PFile d n) (PFile d n) [PFile d n] [] w
     (fun t => if valid then match update_file d n (fun f => File data (fmode f)) t with
                             | Some t' => Some (t', tt) | None => None end
               else None) id.
